@@ -129,7 +129,7 @@ Proof. exact align_to_tiles. Qed.
 Theorem C01_pod_align_to : forall ENV T U s,
   Root.pod_align_to ENV T U s = Ret (slice_align_to T U s) /\
   Root.pod_align_to_mut ENV T U s = Ret (slice_align_to T U s).
-Proof. intros ENV T U s. split; reflexivity. Qed.
+Proof. exact pod_align_to_is_align_to. Qed.
 
 Theorem C01_pod_align_to_tiles : forall T U s, slen s < USIZE_MAX ->
   let '(p, m, q) := slice_align_to T U s in
